@@ -121,9 +121,13 @@ def one_model(ctx, prog, script, rng):
             m = fresh()
             before = snapshot(m)
             res = {}
+            call_opts = dict(opts)
+            off = rng.choice([0, 0, 0, -1, 1, 2])
+            if feasible and off and 0 <= tn + off < n:
+                call_opts['offset'] = off       # seeds the endogenous variables of period t from t+offset: still only period t may change
             with ref.quiet():
                 try:
-                    res['ret'] = m.solve_period(m.span[tn], **opts) if entry == 'solve_period' else m.solve_t(t, **opts)
+                    res['ret'] = m.solve_period(m.span[tn], **call_opts) if entry == 'solve_period' else m.solve_t(t, **call_opts)
                 except Exception as e:
                     res['exc'] = e
             m.__dict__['v_log'].enabled = False
@@ -140,8 +144,10 @@ def one_model(ctx, prog, script, rng):
                     ctx.count('infeasible_request_changed_state')
                 continue
             allowed = {(nm, tn + k) for nm, k in writes} | {('status', tn), ('iterations', tn)}
+            if 'offset' in call_opts:
+                allowed |= {(nm, tn) for nm in Model.ENDOGENOUS}
             if changed - allowed:
-                ctx.violation('foreign-cells-changed', f'solve_t({t}) changed {sorted(changed - allowed)}; the script assigns only {sorted(allowed)}', case)
+                ctx.violation('foreign-cells-changed', f'solve_t({t}, {call_opts.get("offset", 0)}) changed {sorted(changed - allowed)}; the script assigns only {sorted(allowed)}', case)
                 continue
             if not check_reads(ctx, m.__dict__['v_log'], n, offs, case, [tn]):
                 continue
